@@ -22,7 +22,8 @@ Inductive vmmode := MFresh | MReuse | MReuseClear.
 
 Inductive vmcase :=
 | VmProg (debug : bool) (mode : vmmode) (P : program) (runs : list (N * obs))
-| VmOpTable (names : list (list N)).
+| VmOpTable (names : list (list N))
+| VmReserved (answers : list bool).   (* C18: register_native_function("__mine") rejected, "_x" accepted, "__min" rejected, "a__b" accepted *)
 
 Fixpoint err_eqb (a b : err) : bool :=
   match a, b with
@@ -33,6 +34,7 @@ Fixpoint err_eqb (a b : err) : bool :=
   | EAssertionError, EAssertionError | EInvalidUpvalue, EInvalidUpvalue | ENotClosure, ENotClosure => true
   | EVarNotFound x, EVarNotFound y => opt_eqb (list_eqb N.eqb) x y
   | EProcedureNotFound x, EProcedureNotFound y => N.eqb x y
+  | EConversion x, EConversion y => N.eqb x y
   | ETaskFailure n1 e1, ETaskFailure n2 e2 => list_eqb N.eqb n1 n2 && err_eqb e1 e2
   | _, _ => false
   end.
@@ -162,6 +164,7 @@ Definition check1 (c : vmcase) : list N :=
   match c with
   | VmProg debug mode P runs => check_runs debug mode true P fresh_state runs
   | VmOpTable names => if list_eqb (list_eqb N.eqb) names op_names then [] else [4]
+  | VmReserved _ => []
   end.
 
 Definition check_all := CheckUtil.check_all check1.
